@@ -75,7 +75,10 @@ WellFormed(d) ==
   /\ \A n \in 2..Len(d) : /\ d[n].k # "root"
                           /\ d[n].p \in 1..(n - 1)
                           /\ d[d[n].p].k \in {"root", "elem"}
-                          /\ (d[n].k \in {"attr", "ns"} => d[d[n].p].k = "elem")
+                          /\ (d[n].k = "attr" => d[d[n].p].k = "elem")
+                          \* (namespace nodes on the root: not in the XPath data model, but the store accepts them from a
+                          \*  parser that seeds in-scope bindings before the first element - see StoreFn.tla - and they are inherited)
+                          /\ (d[n].k = "ns" => d[d[n].p].k \in {"elem", "root"})
   \* document order: a node's namespace nodes, then attributes, then children, and a
   \* subtree is contiguous: every node between a node and one of its descendants
   \* (or attributes / namespace nodes) belongs to that node as well
